@@ -329,6 +329,10 @@ func runGate(b *runner.Batch, n int, art string) {
 	}
 	sets := []ss{{"nobody", nil, false}, {"stranger", []world.SignerSpec{world.G(e.users[2])}, false}, {"single-member", []world.SignerSpec{world.G(w.Members[0])}, false},
 		{"one-inner-ring-key", []world.SignerSpec{world.G(world.Single(e.ir[0]))}, false}}
+	if n%2 == 0 {
+		// half of the committee: the largest coalition that is not a majority
+		sets = append(sets, ss{"half-committee", []world.SignerSpec{world.G(world.Multi(w.Privs, n/2))}, false})
+	}
 	if roleGated {
 		sets = append(sets, ss{"chain-alphabet", w.Alpha(), false}, ss{"chain-majority", w.Major(), false}, ss{"inner-ring-majority", []world.SignerSpec{world.G(e.irMaj)}, true})
 	} else {
@@ -356,7 +360,9 @@ func runGate(b *runner.Batch, n int, art string) {
 			rs := w.Block(w.Prepare(s.s, h, "update", real.NEFBytes, real.ManBytes, nil),
 				w.Prepare([]world.SignerSpec{world.G(maj2)}, h, "update", real.NEFBytes, real.ManBytes, nil))
 			b.Tx(2)
-			if old := rs[0]; old.Halted() || !old.Diff.Empty() {
+			// (a block's storage diff is not attributable to one transaction; that the refused request
+			// changed nothing follows from the acting majority's request succeeding from the old version)
+			if old := rs[0]; old.Halted() {
 				b.Violation(fmt.Sprintf("%s.update was granted to the majority of the Inner Ring dismissed in the previous block", art),
 					map[string]any{"contract": art, "committee": n, "tx": w.RenderResult(old, true)})
 				return
@@ -815,7 +821,7 @@ type plan struct {
 
 func plans(tier string) []plan {
 	var ps []plan
-	for _, n := range []int{3, 7} {
+	for _, n := range []int{3, 7, 4} {
 		for _, a := range world.ContractNames {
 			ps = append(ps, plan{kind: "gate", art: a, n: n})
 		}
@@ -916,13 +922,13 @@ func runC16(b *runner.Batch) {
 func init() {
 	runner.Register(&runner.Check{
 		ID: "C16", Level: "exploration",
-		Rule: "Three engines executing the tree's real update/_deploy(isUpdate). Gate: the current sources compiled from a scratch copy whose only change is a lower version number are deployed on committees of 3 and 7 with state in every contract, and update to the real build is attempted under {nobody, stranger, single member, one Inner Ring key, Alphabet 2/3+1, Inner Ring majority, committee majority}; for the role-gated main-chain contracts on the committee of 7 the NeoFSAlphabet role is re-designated in block N and block N+1 carries the update request of the dismissed majority (must be refused) followed by that of the acting one (must be granted); refusals must change nothing, the accepted upgrade must preserve the whole read API, a second upgrade must be refused. Bounds + synthetic legacy storages: a shim contract carrying the target's manifest name is filled (raw pokes) with the state of a live contract of the same world rewritten into the layout of the reported version {0, oldest-1, oldest, oldest+1, 15999..19999 class borders, new-1, new, new+1, 2^31} x notary flag {absent, false, true with no / stale / pending ballots} x legacy key layout, then upgraded; success iff oldest <= v < new and no pending vote, the read API and the raw storage afterwards must equal the live contract's, migrated subscribers must still receive ticks in order and migrated locks must unlock. Recorded dumps: the repository's network dumps are loaded twice, one copy upgraded, and the read API of both copies compared. distinct = (engine, contract, version class, flag variant, signer set, outcome).",
+		Rule: "Three engines executing the tree's real update/_deploy(isUpdate). Gate: the current sources compiled from a scratch copy whose only change is a lower version number are deployed on committees of 3, 7 and 4 (there also: half of the committee as a signer set) with state in every contract, and update to the real build is attempted under {nobody, stranger, single member, one Inner Ring key, Alphabet 2/3+1, Inner Ring majority, committee majority}; for the role-gated main-chain contracts on the committee of 7 the NeoFSAlphabet role is re-designated in block N and block N+1 carries the update request of the dismissed majority (must be refused) followed by that of the acting one (must be granted); refusals must change nothing, the accepted upgrade must preserve the whole read API, a second upgrade must be refused. Bounds + synthetic legacy storages: a shim contract carrying the target's manifest name is filled (raw pokes) with the state of a live contract of the same world rewritten into the layout of the reported version {0, oldest-1, oldest, oldest+1, 15999..19999 class borders, new-1, new, new+1, 2^31} x notary flag {absent, false, true with no / stale / pending ballots} x legacy key layout, then upgraded; success iff oldest <= v < new and no pending vote, the read API and the raw storage afterwards must equal the live contract's, migrated subscribers must still receive ticks in order and migrated locks must unlock. Recorded dumps: the repository's network dumps are loaded twice, one copy upgraded, and the read API of both copies compared. distinct = (engine, contract, version class, flag variant, signer set, outcome).",
 		Assumptions: []string{"neo-go v0.107.0 VM, ledger, ContractManagement are the trusted base", "contracts are compiled at check time from /repo/contracts; the down-versioned build differs only in common/version.go",
 			"the legacy layouts are reconstructed from the migration code's documented expectations (un-prefixed balance accounts, un-prefixed container keys, pre-0.16 node structures, notary/ballots flags, legacy subscriber keys, committee-owned TLD entries); the pre-0.17 non-notary Alphabet contract migration (GAS redistribution) is not synthesised"},
 		Batches: func(t string) int { return len(plans(t)) },
 		Helpers: []string{"probe", "shim"}, Chunk: 2,
 		Prepare: prepareLow,
-		Floors: []string{"gate-refused:nobody", "gate-refused:single-member", "gate-refused:alphabet", "gate-refused:chain-majority", "gate-refused:inner-ring-majority", "gate-accepted:balance", "gate-accepted:container", "gate-accepted:netmap", "gate-accepted:nns", "gate-accepted:neofs", "gate-accepted:processing", "gate-accepted:proxy", "gate-accepted:alphabet", "gate-accepted:audit", "gate-accepted:neofsid", "gate-accepted:reputation", "gate-same-version-refused", "gate-refused:dismissed-inner-ring-majority", "gate-accepted-after-rotation", "netmap-history-of-12-filled", "netmap-history-of-3-filled",
+		Floors: []string{"gate-refused:nobody", "gate-refused:half-committee", "gate-refused:single-member", "gate-refused:alphabet", "gate-refused:chain-majority", "gate-refused:inner-ring-majority", "gate-accepted:balance", "gate-accepted:container", "gate-accepted:netmap", "gate-accepted:nns", "gate-accepted:neofs", "gate-accepted:processing", "gate-accepted:proxy", "gate-accepted:alphabet", "gate-accepted:audit", "gate-accepted:neofsid", "gate-accepted:reputation", "gate-same-version-refused", "gate-refused:dismissed-inner-ring-majority", "gate-accepted-after-rotation", "netmap-history-of-12-filled", "netmap-history-of-3-filled",
 			"bounds-refused:too-old", "bounds-refused:not-older", "bounds-refused:pending-vote", "upgrade-ok:<0.16", "upgrade-ok:<0.17", "upgrade-ok:<0.18", "upgrade-ok:<0.19", "upgrade-ok:<0.20", "notary-flag:true-stale", "notary-flag:true-empty", "notary-flag:false", "version-bounds:nns", "version-bounds:balance", "dump-upgraded"},
 		Run: runC16,
 	})
